@@ -48,13 +48,27 @@ Definition written (T : string) (o : list orow) : list Z :=
 Section WithMissing.
 (* ids issued by earlier runs whose rows are not in this run's heap (empty for a fresh run) *)
 Variable miss : string -> list Z.
+(* number of heap cells that were loaded from a continuation file (0 for a fresh run):
+   only the cells created by THIS run are counted *)
+Variable n0 : nat.
+
+Definition nh (s : st) : list cell := skipn n0 (heap s).
+
+Lemma nh_eq s s' : heap s' = heap s -> nh s' = nh s.
+Proof. unfold nh. intros ->. reflexivity. Qed.
+
+Lemma nh_snoc s c : (n0 <= length (heap s))%nat -> skipn n0 (heap s ++ [c]) = nh s ++ [c].
+Proof.
+  intros H. unfold nh. rewrite skipn_app.
+  replace (n0 - length (heap s))%nat with 0%nat by lia. reflexivity.
+Qed.
 
 Definition slot_ok (p : string * slot) : Prop :=
   s_alloc (snd p) = None -> s_consumed (snd p) = false.
 
 Definition K (s : st) : Prop :=
-  Forall slot_ok (slots s) /\
-  forall T, Permutation (miss T ++ reserved T (slots s) ++ cell_ids T (heap s))
+  (Forall slot_ok (slots s) /\ (n0 <= length (heap s))%nat) /\
+  forall T, Permutation (miss T ++ reserved T (slots s) ++ cell_ids T (nh s))
                         (Zseq 1 (Z.to_nat (last_id s T))) /\ 0 <= last_id s T.
 
 Lemma Forall_assign {A} (P : string * A -> Prop) k v l :
@@ -132,15 +146,15 @@ Proof.
   destruct (s_alloc sl) as [j|] eqn:Ha.
   - intros H. injection H as <- _. apply tq_refl.
   - intros H. injection H as <- _. unfold tq. cbn [heap out upd_slots upd_ids generate_id].
-    splits; try reflexivity. intros [Hwf HK].
+    splits; try reflexivity. intros [[Hwf Hlen] HK]. unfold nh in *.
     assert (Hnc : s_consumed sl = false).
     { destruct (lookup_In _ _ _ Hl) as (k' & Hin).
       rewrite Forall_forall in Hwf. apply (Hwf (k', sl) Hin). exact Ha. }
     set (new := last_id s (s_table sl) + 1).
     split.
-    + cbn [slots upd_slots upd_ids]. apply Forall_assign; [exact Hwf|].
+    + cbn [slots upd_slots upd_ids heap]. split; [|exact Hlen]. apply Forall_assign; [exact Hwf|].
       unfold slot_ok. cbn [snd s_alloc]. discriminate.
-    + intros T. destruct (HK T) as [HP Hnn]. destruct (HK (s_table sl)) as [_ Hnn2].
+    + intros T. unfold nh. destruct (HK T) as [HP Hnn]. destruct (HK (s_table sl)) as [_ Hnn2].
       pose proof (last_id_generate s (s_table sl) T) as Hlast.
       unfold generate_id in Hlast. cbn [fst] in Hlast.
       rewrite !last_id_upd_slots. fold new in Hlast. rewrite Hlast. cbn [slots upd_slots upd_ids heap].
@@ -152,8 +166,8 @@ Proof.
       destruct (String.eqb T (s_table sl)) eqn:ET.
       * apply String.eqb_eq in ET. subst T. rewrite String.eqb_refl. split; [|unfold new; lia].
         unfold new. rewrite Zseq_snoc by lia. rewrite <- !app_assoc in *. cbn [app].
-        replace (miss (s_table sl) ++ pre ++ (last_id s (s_table sl) + 1) :: post ++ cell_ids (s_table sl) (heap s))
-          with ((miss (s_table sl) ++ pre) ++ ((last_id s (s_table sl) + 1) :: post) ++ cell_ids (s_table sl) (heap s))
+        replace (miss (s_table sl) ++ pre ++ (last_id s (s_table sl) + 1) :: post ++ cell_ids (s_table sl) (skipn n0 (heap s)))
+          with ((miss (s_table sl) ++ pre) ++ ((last_id s (s_table sl) + 1) :: post) ++ cell_ids (s_table sl) (skipn n0 (heap s)))
           by (rewrite <- !app_assoc; reflexivity).
         apply perm_mid_end. rewrite <- !app_assoc. exact HP.
       * assert (Hne : String.eqb (s_table sl) T = false).
@@ -245,54 +259,70 @@ Qed.
    do not touch ids, slots or the (table,id) of heap cells *)
 
 Definition same_core (s s' : st) : Prop :=
-  ids s' = ids s /\ slots s' = slots s /\ (forall T, cell_ids T (heap s') = cell_ids T (heap s)).
+  ids s' = ids s /\ slots s' = slots s /\
+  (length (heap s') = length (heap s) /\ forall T, cell_ids T (nh s') = cell_ids T (nh s)).
 
 Lemma K_same_core s s' : same_core s s' -> K s -> K s'.
 Proof.
-  intros (Hi & Hs & Hc) [Hwf HK]. split; [rewrite Hs; exact Hwf|].
+  intros (Hi & Hs & Hl & Hc) [[Hwf Hlen] HK]. split; [split; [rewrite Hs; exact Hwf|rewrite Hl; exact Hlen]|].
   intros T. unfold last_id. rewrite Hi, Hs, Hc. apply HK.
 Qed.
 
-Lemma cell_ids_set_nth T h : forall i c c',
+Lemma same_core_heap_eq s s' :
+  ids s' = ids s -> slots s' = slots s -> heap s' = heap s -> same_core s s'.
+Proof. intros a b c. unfold same_core, nh. rewrite c. auto. Qed.
+
+Lemma cell_ids_set_nth T h : forall k i c c',
   nth_error h i = Some c -> c_table c' = c_table c -> c_id c' = c_id c ->
-  cell_ids T (set_nth i c' h) = cell_ids T h.
+  cell_ids T (skipn k (set_nth i c' h)) = cell_ids T (skipn k h).
 Proof.
-  unfold cell_ids. induction h as [|x r IH]; intros i c c' Hn Ht Hi; destruct i; cbn [nth_error] in Hn;
-    try discriminate; cbn [set_nth filter].
-  - injection Hn as ->. rewrite Ht. destruct (String.eqb (c_table c) T); cbn [map]; congruence.
-  - destruct (String.eqb (c_table x) T); cbn [map]; erewrite IH; eauto.
+  unfold cell_ids. induction h as [|x r IH]; intros k i c c' Hn Ht Hi; destruct i; cbn [nth_error] in Hn;
+    try discriminate; cbn [set_nth].
+  - injection Hn as ->. destruct k; cbn [skipn filter]; [|reflexivity].
+    rewrite Ht. destruct (String.eqb (c_table c) T); cbn [map]; congruence.
+  - destruct k; cbn [skipn filter].
+    + pose proof (IH 0%nat i c c' Hn Ht Hi) as H0. cbn [skipn] in H0.
+      destruct (String.eqb (c_table x) T); cbn [map]; rewrite H0; reflexivity.
+    + eapply IH; eauto.
 Qed.
+
+Lemma set_nth_length {A} (l : list A) : forall i x, length (set_nth i x l) = length l.
+Proof. induction l as [|y r IH]; intros i x; destruct i; cbn [set_nth length]; auto. Qed.
 
 Lemma set_field_core s h n v : same_core s (set_field s h n v).
 Proof.
-  unfold set_field, same_core. destruct (nth_error (heap s) h) as [c|] eqn:E; [|auto].
-  cbn [ids slots heap upd_heap]. splits; try reflexivity. intros T.
-  eapply cell_ids_set_nth; eauto.
+  unfold set_field. destruct (nth_error (heap s) h) as [c|] eqn:E; [|apply same_core_heap_eq; reflexivity].
+  unfold same_core, nh. cbn [ids slots heap upd_heap]. splits; try reflexivity.
+  - apply set_nth_length.
+  - intros T. eapply cell_ids_set_nth; eauto.
 Qed.
 
 Lemma set_var_core s n v : same_core s (set_var s n v).
-Proof. unfold set_var, same_core. destruct (frames s); auto. Qed.
+Proof. unfold set_var. destruct (frames s); apply same_core_heap_eq; reflexivity. Qed.
 Lemma set_obj_core s h : same_core s (set_obj s h).
-Proof. unfold set_obj, same_core. destruct (frames s); auto. Qed.
+Proof. unfold set_obj. destruct (frames s); apply same_core_heap_eq; reflexivity. Qed.
 Lemma push_frame_core s : same_core s (push_frame s).
-Proof. unfold same_core. auto. Qed.
+Proof. apply same_core_heap_eq; reflexivity. Qed.
 Lemma pop_frame_core s : same_core s (pop_frame s).
-Proof. unfold pop_frame, same_core. destruct (frames s); auto. Qed.
+Proof. unfold pop_frame. destruct (frames s); apply same_core_heap_eq; reflexivity. Qed.
 Lemma register_object_core s h t nick once : same_core s (register_object s h t nick once).
-Proof. unfold register_object, same_core. destruct nick, once; auto. Qed.
+Proof. unfold register_object. destruct nick, once; apply same_core_heap_eq; reflexivity. Qed.
 Lemma remember_deps_core fs : forall s t, same_core s (remember_deps s t fs).
 Proof.
   unfold remember_deps. induction fs as [|[n v] r IH]; intros s t; cbn [fold_left].
-  - unfold same_core. auto.
+  - apply same_core_heap_eq; reflexivity.
   - destruct (target_table s v); [|apply IH]. destruct (existsb _ _); [apply IH|].
-    destruct (IH (upd_deps s (deps s ++ [(t, s0, n)])) t) as (a & b & c).
+    destruct (IH (upd_deps s (deps s ++ [(t, s0, n)])) t) as (a & b & c & d).
     unfold same_core. splits; auto.
 Qed.
 Lemma upd_out_core s x : same_core s (upd_out s x).
-Proof. unfold same_core. auto. Qed.
+Proof. apply same_core_heap_eq; reflexivity. Qed.
 
 Lemma same_core_trans s1 s2 s3 : same_core s1 s2 -> same_core s2 s3 -> same_core s1 s3.
-Proof. unfold same_core. intros (a & b & c) (d & e & f). splits; [congruence|congruence|intros T; rewrite f; apply c]. Qed.
+Proof.
+  unfold same_core. intros (a & b & c1 & c2) (d & e & f1 & f2).
+  splits; [congruence|congruence|congruence|intros T; rewrite f2; apply c2].
+Qed.
 
 (* ------------------------------------------------------------------ creating a row *)
 
@@ -321,16 +351,18 @@ Lemma K_consume s n T s' i idx fs :
   consume_for s n T = Some (s', i) -> K s ->
   K (upd_heap s' (heap s' ++ [mkCell T i idx fs])) /\ heap s' = heap s /\ out s' = out s.
 Proof.
-  intros Hc [Hwf HK]. destruct (consume_for_spec _ _ _ _ _ Hc) as (sl & Hl & Ha & Hnc & Ht & ->).
+  intros Hc [[Hwf Hlen] HK]. destruct (consume_for_spec _ _ _ _ _ Hc) as (sl & Hl & Ha & Hnc & Ht & ->).
   cbn [heap out upd_slots upd_heap]. split; [|split; reflexivity]. split.
-  - cbn [slots upd_heap upd_slots]. apply Forall_assign; [exact Hwf|]. unfold slot_ok. cbn. discriminate.
+  - cbn [slots heap upd_heap upd_slots]. split.
+    + apply Forall_assign; [exact Hwf|]. unfold slot_ok. cbn. discriminate.
+    + rewrite app_length. lia.
   - intros U. destruct (HK U) as [HP Hnn].
     change (last_id (upd_heap (upd_slots s (assign n (mkSlot (s_table sl) (Some i) true) (slots s)))
                        (heap s ++ [mkCell T i idx fs])) U) with (last_id s U).
-    cbn [slots heap upd_heap upd_slots]. split; [|exact Hnn].
+    unfold nh at 1. cbn [slots heap upd_heap upd_slots]. split; [|exact Hnn].
     destruct (reserved_assign U n sl (mkSlot (s_table sl) (Some i) true) (slots s) Hl)
       as (pre & post & H1 & H2).
-    rewrite H2, cell_ids_snoc. rewrite H1 in HP. cbn [c_table c_id].
+    rewrite H2, (nh_snoc s _ Hlen), cell_ids_snoc. rewrite H1 in HP. cbn [c_table c_id].
     unfold slot_res in *. rewrite Ha in HP. cbn [s_alloc s_consumed negb andb app] in *.
     rewrite Hnc, Ht in HP. cbn [negb andb] in HP.
     destruct (String.eqb T U) eqn:E.
@@ -346,12 +378,14 @@ Lemma K_generate s T idx fs :
   K s ->
   K (upd_heap (fst (generate_id s T)) (heap s ++ [mkCell T (snd (generate_id s T)) idx fs])).
 Proof.
-  intros [Hwf HK]. split; [exact Hwf|]. intros U. destruct (HK U) as [HP Hnn].
+  intros [[Hwf Hlen] HK]. split.
+  { split; [exact Hwf|]. cbn [heap upd_heap]. rewrite app_length. lia. }
+  intros U. destruct (HK U) as [HP Hnn].
   destruct (HK T) as [_ HnT].
   change (last_id (upd_heap (fst (generate_id s T)) (heap s ++ [mkCell T (snd (generate_id s T)) idx fs])) U)
     with (last_id (fst (generate_id s T)) U).
-  rewrite last_id_generate. cbn [slots heap upd_heap generate_id fst snd upd_ids].
-  rewrite cell_ids_snoc. cbn [c_table c_id].
+  rewrite last_id_generate. unfold nh at 1. cbn [slots heap upd_heap generate_id fst snd upd_ids].
+  rewrite (nh_snoc s _ Hlen), cell_ids_snoc. cbn [c_table c_id].
   destruct (String.eqb U T) eqn:E.
   - apply String.eqb_eq in E. subst U. rewrite String.eqb_refl. split; [|lia].
     rewrite Zseq_snoc by lia. rewrite !app_assoc. apply Permutation_app_tail.
@@ -378,7 +412,7 @@ Qed.
 
 Definition dl (T : string) (s s' : st) (dw dc : list Z) : Prop :=
   Permutation (written T (out s')) (dw ++ written T (out s)) /\
-  Permutation (cell_ids T (heap s')) (cell_ids T (heap s) ++ dc).
+  Permutation (cell_ids T (nh s')) (cell_ids T (nh s) ++ dc).
 
 Lemma dl_refl T s : dl T s s [] [].
 Proof. unfold dl. rewrite app_nil_r. split; apply Permutation_refl. Qed.
@@ -392,7 +426,7 @@ Proof.
 Qed.
 
 Lemma dl_quiet T s s' :
-  out s' = out s -> (forall U, cell_ids U (heap s') = cell_ids U (heap s)) -> dl T s s' [] [].
+  out s' = out s -> (forall U, cell_ids U (nh s') = cell_ids U (nh s)) -> dl T s s' [] [].
 Proof. intros Ho Hc. unfold dl. rewrite Ho, Hc, app_nil_r. split; apply Permutation_refl. Qed.
 
 (* balanced: what was written equals what was created *)
@@ -410,14 +444,14 @@ Proof.
 Qed.
 
 Lemma bal_quiet s s' :
-  out s' = out s -> (forall U, cell_ids U (heap s') = cell_ids U (heap s)) -> bal s s'.
+  out s' = out s -> (forall U, cell_ids U (nh s') = cell_ids U (nh s)) -> bal s s'.
 Proof. intros Ho Hc T _. exists [], []. split; [apply dl_quiet; assumption|constructor]. Qed.
 
 Lemma tq_bal s s' : tq s s' -> bal s s'.
-Proof. intros (Hh & Ho & _). apply bal_quiet; [exact Ho|]. intros U. rewrite Hh. reflexivity. Qed.
+Proof. intros (Hh & Ho & _). apply bal_quiet; [exact Ho|]. intros U. rewrite (nh_eq _ _ Hh). reflexivity. Qed.
 
 Lemma core_bal s s' : same_core s s' -> out s' = out s -> bal s s'.
-Proof. intros (_ & _ & Hc) Ho. apply bal_quiet; assumption. Qed.
+Proof. intros (_ & _ & _ & Hc) Ho. apply bal_quiet; assumption. Qed.
 
 (* K and the balance through every task of the evaluator *)
 Theorem run_K fuel : forall e tk s s' r,
@@ -479,11 +513,11 @@ Proof.
     { eapply K_same_core; [apply remember_deps_core|exact K4]. }
     (* write_row *)
     assert (Hw : K s6 /\
-                 (forall U, cell_ids U (heap s6) = cell_ids U (heap s4)) /\
+                 (forall U, cell_ids U (nh s6) = cell_ids U (nh s4)) /\
                  forall T, hidden T = false ->
                    Permutation (written T (out s6))
                      ((if String.eqb (c_table c) T then [c_id c] else []) ++ written T (out s4))).
-    { pose proof (remember_deps_core (c_fields c) s4 (t_table t)) as (Hi5 & Hs5 & Hc5).
+    { pose proof (remember_deps_core (c_fields c) s4 (t_table t)) as (Hi5 & Hs5 & Hl5 & Hc5).
       pose proof (remember_deps_out (c_fields c) s4 (t_table t)) as Ho5.
       set (s5 := remember_deps s4 (t_table t) (c_fields c)) in *.
       unfold write_row in E0.
@@ -503,7 +537,7 @@ Proof.
         pose proof (flatten_fields_tq _ _ _ _ Efl) as (Hh & Ho & HKk).
         split; [eapply K_same_core; [apply upd_out_core|apply HKk; exact K5]|].
         split.
-        + intros U. cbn [heap upd_out]. rewrite Hh. apply Hc5.
+        + intros U. rewrite <- Hc5. apply f_equal. apply nh_eq. cbn [heap upd_out]. exact Hh.
         + intros T HT. cbn [out upd_out]. rewrite Ho, Ho5. unfold written at 1. cbn [flat_map fst snd orow_id].
           fold (written T (out s4)). apply Permutation_refl. }
     destruct Hw as (K6 & Hcell6 & Hwr6).
@@ -525,9 +559,11 @@ Proof.
     set (X := if String.eqb (t_table t) T then [id] else []).
     assert (Hout3 : out s3 = out s).
     { unfold s3. rewrite register_object_out, set_obj_out. unfold s2. cbn [out upd_heap]. exact Ho1. }
-    assert (Hcells3 : cell_ids T (heap s3) = cell_ids T (heap s) ++ X).
-    { destruct C23 as (_ & _ & Hc23). rewrite Hc23. unfold s2. cbn [heap upd_heap].
-      rewrite cell_ids_snoc, Hh1. reflexivity. }
+    assert (Hcells3 : cell_ids T (nh s3) = cell_ids T (nh s) ++ X).
+    { destruct C23 as (_ & _ & _ & Hc23). rewrite Hc23. unfold s2. unfold nh at 1. cbn [heap upd_heap].
+      destruct HK as [[_ Hlen] _]. rewrite <- Hh1 in Hlen.
+      rewrite (nh_snoc s1 _ Hlen), cell_ids_snoc. cbn [c_table c_id]. fold X.
+      rewrite (nh_eq _ _ Hh1). reflexivity. }
     exists (dw7 ++ X ++ dw4), (X ++ dc4 ++ dc7). split; [split|].
     + eapply Permutation_trans; [exact Hw7|]. rewrite <- !app_assoc. apply Permutation_app_head.
       eapply Permutation_trans; [apply (Hwr6 T HT)|]. rewrite Hct, Hci. fold X.
@@ -585,9 +621,10 @@ Lemma iteration_K e stmts c s s' :
 Proof.
   unfold iteration. intros H HK. dbind H as [s1 r].
   destruct (slots_filled s1) eqn:Hf; [|discriminate]. injection H as <-.
-  destruct (run_K _ _ _ _ _ _ E HK) as [[Hwf K1] B1]. splits.
-  - split; [apply fresh_slots_ok|]. intros T. destruct (K1 T) as [HP Hnn].
-    change (last_id (reset_slots e s1) T) with (last_id s1 T). cbn [slots heap reset_slots].
+  destruct (run_K _ _ _ _ _ _ E HK) as [[[Hwf Hlen] K1] B1]. splits.
+  - split; [split; [apply fresh_slots_ok|exact Hlen]|]. intros T. destruct (K1 T) as [HP Hnn].
+    change (last_id (reset_slots e s1) T) with (last_id s1 T).
+    change (nh (reset_slots e s1)) with (nh s1). cbn [slots reset_slots].
     rewrite fresh_slots_reserved. rewrite (slots_filled_reserved s1 T Hf) in HP. split; assumption.
   - eapply bal_trans; [exact B1|]. apply bal_quiet; reflexivity.
   - intros T. apply fresh_slots_reserved.
@@ -605,12 +642,71 @@ Qed.
 
 End WithMissing.
 
-(* ------------------------------------------------------------------ C01 for fresh runs *)
+(* ------------------------------------------------------------------ C01: one run, fresh or continued *)
 
-Lemma init_K e : K (fun _ => []) (init_st e).
+(* a state from which a run may start: no pending forward references, nothing written yet *)
+Definition start_ok (s0 : st) : Prop :=
+  Forall slot_ok (slots s0) /\ (forall T, reserved T (slots s0) = []) /\
+  (forall T, 0 <= last_id s0 T) /\ out s0 = [].
+
+Definition miss_of (s0 : st) (T : string) : list Z := Zseq 1 (Z.to_nat (last_id s0 T)).
+
+Lemma start_K s0 : start_ok s0 -> K (miss_of s0) (length (heap s0)) s0.
 Proof.
-  split; [apply fresh_slots_ok|]. intros T. cbn [init_st slots heap app].
-  rewrite fresh_slots_reserved. unfold last_id. cbn. split; [constructor|lia].
+  intros (Hwf & Hr & Hnn & _). split; [split; [exact Hwf|lia]|]. intros T.
+  unfold nh. rewrite skipn_all, Hr. cbn [cell_ids filter map app]. rewrite app_nil_r.
+  split; [apply Permutation_refl|apply Hnn].
+Qed.
+
+Lemma written_rev T l : Permutation (written T (rev l)) (written T l).
+Proof.
+  unfold written. induction l as [|x r IH]; cbn [rev flat_map]; [constructor|].
+  rewrite flat_map_app. cbn [flat_map]. rewrite app_nil_r.
+  eapply Permutation_trans; [apply Permutation_app_comm|]. apply Permutation_app_head. exact IH.
+Qed.
+
+(* One run of k iterations from any admissible start state: the ids written for a visible
+   table are exactly the next block  last0+1 .. last  of that table's counter. *)
+Theorem ids_dense_run e stmts c k s0 s :
+  start_ok s0 -> iterations k e stmts c s0 = Ok s ->
+  start_ok (upd_out s []) /\
+  forall T, last_id s0 T <= last_id s T /\
+    (hidden T = false ->
+     Permutation (written T (out s))
+                 (Zseq (last_id s0 T + 1) (Z.to_nat (last_id s T - last_id s0 T)))).
+Proof.
+  intros Hs0 H. pose proof Hs0 as (_ & _ & Hnn0 & Hout0).
+  destruct (iterations_K (miss_of s0) (length (heap s0)) k _ _ _ _ _ H (start_K _ Hs0))
+    as ([[Hwf _] HK] & HB & HR).
+  { destruct Hs0 as (_ & Hr & _). exact Hr. }
+  split.
+  { unfold start_ok. cbn [slots out upd_out]. splits; try assumption; try reflexivity.
+    intros T. destruct (HK T) as [_ Hn]. exact Hn. }
+  intros T. destruct (HK T) as [HP Hnn]. rewrite HR in HP. cbn [app] in HP.
+  assert (Hle : last_id s0 T <= last_id s T).
+  { apply Permutation_length in HP. rewrite app_length, !Zseq_length in HP.
+    specialize (Hnn0 T). unfold miss_of in HP. rewrite Zseq_length in HP. lia. }
+  split; [exact Hle|]. intros HT.
+  assert (Hsplit : Zseq 1 (Z.to_nat (last_id s T)) =
+                   miss_of s0 T ++ Zseq (last_id s0 T + 1) (Z.to_nat (last_id s T - last_id s0 T))).
+  { unfold miss_of. specialize (Hnn0 T).
+    replace (Z.to_nat (last_id s T)) with (Z.to_nat (last_id s0 T) + Z.to_nat (last_id s T - last_id s0 T))%nat by lia.
+    rewrite Zseq_app. do 2 f_equal. lia. }
+  rewrite Hsplit in HP. apply Permutation_app_inv_l in HP.
+  destruct (HB T HT) as (dw & dc & [Hw Hc] & Hp).
+  rewrite Hout0 in Hw. cbn [written flat_map] in Hw. rewrite app_nil_r in Hw.
+  unfold nh in Hc at 2. rewrite skipn_all in Hc. cbn [cell_ids filter map app] in Hc.
+  eapply Permutation_trans; [exact Hw|]. eapply Permutation_trans; [exact Hp|].
+  eapply Permutation_trans; [apply Permutation_sym; exact Hc|]. exact HP.
+Qed.
+
+Lemma init_start_ok e : start_ok (init_st e).
+Proof.
+  unfold start_ok. cbn [init_st slots out]. split; [|split; [|split]].
+  - apply fresh_slots_ok.
+  - intros T. apply fresh_slots_reserved.
+  - intros T. unfold last_id. cbn. lia.
+  - reflexivity.
 Qed.
 
 (* After any number of iterations of any recipe of the fragment: for every visible table the
@@ -621,23 +717,84 @@ Theorem ids_dense_fresh r k s :
     Permutation (written T (out s)) (Zseq 1 (Z.to_nat (last_id s T))).
 Proof.
   unfold run_fresh. intros H T HT.
-  destruct (iterations_K (fun _ => []) k _ _ _ _ _ H (init_K _)) as ([_ HK] & HB & HR).
-  { intros U. apply fresh_slots_reserved. }
-  destruct (HK T) as [HP _]. rewrite HR in HP. cbn [app] in HP.
-  destruct (HB T HT) as (dw & dc & [Hw Hc] & Hp).
-  cbn [init_st out heap written cell_ids flat_map filter map app] in Hw, Hc.
-  rewrite app_nil_r in Hw.
-  eapply Permutation_trans; [exact Hw|]. eapply Permutation_trans; [exact Hp|].
-  eapply Permutation_trans; [apply Permutation_sym; exact Hc|]. exact HP.
+  destruct (ids_dense_run _ _ _ _ _ _ (init_start_ok _) H) as [_ HD].
+  destruct (HD T) as [_ HP]. specialize (HP HT).
+  assert (H0 : last_id (init_st (env_of r)) T = 0) by (unfold last_id; reflexivity).
+  rewrite H0 in HP. replace (last_id s T - 0) with (last_id s T) in HP by lia. exact HP.
 Qed.
 
-(* hidden tables: ids are still dense among the rows created (none is written) *)
-Theorem ids_dense_created r k s :
-  run_fresh r k = Ok s ->
-  forall T, Permutation (cell_ids T (heap s)) (Zseq 1 (Z.to_nat (last_id s T))).
+(* ------------------------------------------------------------------ C01: chains of continuation runs *)
+
+Lemma load_start_ok e c : (forall T, 0 <= match lookup T (k_ids c) with Some z => z | None => 0 end) ->
+  start_ok (load e c).
 Proof.
-  unfold run_fresh. intros H T.
-  destruct (iterations_K (fun _ => []) k _ _ _ _ _ H (init_K _)) as ([_ HK] & _ & HR).
-  { intros U. apply fresh_slots_reserved. }
-  destruct (HK T) as [HP _]. rewrite HR in HP. exact HP.
+  intros Hnn. unfold start_ok, load. cbn [slots out]. split; [|split; [|split]].
+  - apply fresh_slots_ok.
+  - intros T. apply fresh_slots_reserved.
+  - intros T. unfold last_id. cbn [ids]. apply Hnn.
+  - reflexivity.
 Qed.
+
+Lemma save_ids s c : save s = Ok c -> k_ids c = ids s.
+Proof.
+  unfold save. intros H. dbind H as pn. dbind H as pt. injection H as <-. reflexivity.
+Qed.
+
+Lemma load_last_id e c T : last_id (load e c) T = match lookup T (k_ids c) with Some z => z | None => 0 end.
+Proof. reflexivity. Qed.
+
+(* the ids written by a chain of runs, per visible table, starting after the ids [base] *)
+Lemma history_dense r ks : forall (c : option cont) (rowss : list (list orow)) (base : string -> Z),
+  run_history r ks c = Ok rowss ->
+  match c with
+  | None => forall T, base T = 0
+  | Some c0 => (forall T, base T = match lookup T (k_ids c0) with Some z => z | None => 0 end) /\
+               (forall T, 0 <= base T)
+  end ->
+  forall T, hidden T = false ->
+    exists n, Permutation (written T (concat rowss)) (Zseq (base T + 1) n).
+Proof.
+  induction ks as [|k rest IH]; intros c rowss base H Hc T HT; cbn [run_history] in H.
+  - injection H as <-. exists 0%nat. constructor.
+  - dbind H as s.
+    (* the run itself *)
+    assert (Hrun : exists s0, start_ok s0 /\ (forall U, last_id s0 U = base U) /\
+                              iterations k (env_of r) (r_stmts r) (match c with None => false | Some _ => true end) s0 = Ok s).
+    { destruct c as [c0|]; cbn [run_one] in E.
+      - destruct Hc as [Hb Hnn]. exists (load (env_of r) c0). splits; [|intros U; rewrite load_last_id, Hb; reflexivity|exact E].
+        apply load_start_ok. intros U. rewrite <- Hb. apply Hnn.
+      - exists (init_st (env_of r)). splits; [apply init_start_ok|intros U; rewrite Hc; reflexivity|exact E]. }
+    destruct Hrun as (s0 & Hs0 & Hbase & Hit).
+    destruct (ids_dense_run _ _ _ _ _ _ Hs0 Hit) as [Hok HD].
+    destruct (HD T) as [Hle HP]. specialize (HP HT). rewrite Hbase in HP, Hle.
+    assert (Hrows : Permutation (written T (rows_of s))
+                      (Zseq (base T + 1) (Z.to_nat (last_id s T - base T)))).
+    { unfold rows_of. eapply Permutation_trans; [apply written_rev|exact HP]. }
+    destruct rest as [|k2 rest2].
+    + injection H as <-. cbn [concat]. rewrite app_nil_r. eexists. exact Hrows.
+    + dbind H as c1. dbind H as tl. injection H as <-.
+      pose proof (save_ids _ _ E0) as Hids.
+      destruct Hok as (_ & _ & Hnn & _).
+      destruct (IH (Some c1) tl (fun U => last_id s U) E1) with (T := T) as (n2 & Hn2); [|exact HT|].
+      { split; [intros U; rewrite Hids; reflexivity|]. intros U. apply (Hnn U). }
+      exists (Z.to_nat (last_id s T - base T) + n2)%nat.
+      cbn [concat]. unfold written in *. rewrite flat_map_app.
+      rewrite Zseq_app. apply Permutation_app; [exact Hrows|].
+      replace (base T + 1 + Z.of_nat (Z.to_nat (last_id s T - base T))) with (last_id s T + 1) by lia.
+      exact Hn2.
+Qed.
+
+(* C01 over any chain of continuation runs: per visible table the ids written over the whole
+   history are exactly 1..n. *)
+Theorem ids_dense_history r ks rowss :
+  run_history r ks None = Ok rowss ->
+  forall T, hidden T = false -> exists n, Permutation (written T (concat rowss)) (Zseq 1 n).
+Proof.
+  intros H T HT.
+  destruct (history_dense r ks None rowss (fun _ => 0) H (fun _ => eq_refl) T HT) as (n & Hn).
+  exists n. exact Hn.
+Qed.
+
+(* each continuation resumes numbering immediately after the highest id recorded in the file *)
+Theorem resume_after_highest e s c T : save s = Ok c -> last_id (load e c) T = last_id s T.
+Proof. intros H. rewrite load_last_id, (save_ids _ _ H). reflexivity. Qed.
